@@ -9,7 +9,7 @@
 From Coq Require Import List NArith Bool.
 From Gluon Require Import Gen.FactsFilters Model.FilterPolicy Model.Responders Model.Session Proofs.MirrorProofs Proofs.PopProofs
   Proofs.ConvergeProofs Proofs.MembershipProofs Proofs.ViewProofs Proofs.StoreViewProofs Proofs.CommuteProofs Proofs.InterleaveProofs
-  Proofs.ObserverProofs Proofs.WorldProofs Proofs.SessionWitness.
+  Proofs.ObserverProofs Proofs.WorldProofs Proofs.SessionWitness Proofs.ReadOnlyProofs.
 Import ListNotations.
 Open Scope N_scope.
 
@@ -252,6 +252,29 @@ Theorem C02_old_policy_loses_flag_change :
   option_map (fun x => view_flags (fst x)) (run_responders readd_queue readd_snap) = Some [(2, []); (3, [5])].
 Proof. exact old_policy_loses_flag_change. Qed.
 Print Assumptions C02_old_policy_loses_flag_change.
+
+(* read-only selection (EXAMINE): a body fetch changes nothing shared - the database, what a newly opened session sees,
+   every other session - so it cannot drive the examining session's view and the authoritative content apart ... *)
+Theorem C02_readonly_fetch_changes_nothing_shared w i ps b w' out oc :
+  do_cmd w i (CFetchBodyRO ps b) = (w', out, oc) ->
+  same_db w w' /\ (forall mb, fresh_view w' mb = fresh_view w mb) /\
+  (forall j, j <> i -> get_sess w' j = get_sess w j).
+Proof. exact (readonly_fetch_step w i ps b w' out oc). Qed.
+Print Assumptions C02_readonly_fetch_changes_nothing_shared.
+
+(* ... and with nothing pending it leaves the whole world, the session's own snapshot included, as it is: no \Seen
+   appears in the session's view that the database does not have *)
+Theorem C02_readonly_fetch_keeps_own_view w i ps s sel xs :
+  get_sess w i = Some s -> ss_idle s = false -> ss_sel s = Some sel -> s_res (ss_st s) = [] ->
+  msgs_at (s_snap (ss_st s)) ps = Some xs ->
+  do_cmd w i (CFetchBodyRO ps false) = (w, [], OOk).
+Proof. exact (readonly_fetch_keeps_own_view w i ps s sel xs). Qed.
+Print Assumptions C02_readonly_fetch_keeps_own_view.
+
+Example C02_readonly_example :
+  do_cmd ro_w0 0 (CFetchBodyRO [1%nat] false) = (ro_w0, [], OOk) /\
+  fst (fst (do_cmd ro_w0 0 (CFetchBody [1%nat]))) <> ro_w0.
+Proof. exact readonly_example. Qed.
 
 (* the scenario of the repaired defect, on the world model: session 1 appends a message and expunges it before
    session 0 flushed its EXISTS; after draining and NOOP session 0's view equals the fresh view (empty) *)
